@@ -1,4 +1,4 @@
-import HL.Lemmas.ParserErrPre
+import HL.Lemmas.ParserYear
 /-
   Resynchronisation at blank lines (token level, list source).
 
@@ -163,7 +163,7 @@ theorem sync (y0 : Token) (Y' : List Token) (nl : Token) (h1 : nl.ty = .newline)
     (hy : y0.ty ≠ .indent) (hy' : y0.ty ≠ .newline) (hE : ∃ t ∈ y0 :: Y', t.ty = .eof) :
     ∀ (k : Nat) (X : List Token) (st : PState (List Token)), X.length ≤ k → (∀ t ∈ X, t.ty ≠ .eof) →
       strm st = X ++ nl :: y0 :: Y' →
-      ∃ items new dy, ErrZone X nl new ∧
+      ∃ items new dy, ErrZone X nl new ∧ ((∀ t ∈ X, t.ty ≠ .directive) → dy = st.defaultYear) ∧
         ∀ n m, measure (listEnv num cls) st ≤ n →
           measure (listEnv num cls) ⟨Y', y0, st.errors ++ new, dy⟩ ≤ m →
           parseJournalF (listEnv num cls) n st =
@@ -179,7 +179,7 @@ theorem sync (y0 : Token) (Y' : List Token) (nl : Token) (h1 : nl.ty = .newline)
     -- one Newline iteration
     have hc1 : st.current = nl := by simp [strm] at hs; exact hs.1
     have hsrc : st.src = y0 :: Y' := by simp [strm] at hs; exact hs.2
-    refine ⟨[.nothing], [], st.defaultYear, by simp [ErrZone], ?_⟩
+    refine ⟨[.nothing], [], st.defaultYear, by simp [ErrZone], fun _ => rfl, ?_⟩
     intro n m hn hm
     have hne : st.current.ty ≠ .eof := by rw [hc1, h1]; simp
     have hm1 : measure (listEnv num cls) st = Y'.length + 2 := by
@@ -237,20 +237,29 @@ theorem sync (y0 : Token) (Y' : List Token) (nl : Token) (h1 : nl.ty = .newline)
       rw [parseJournalF]
       simp only [hne, if_false, Nat.add_sub_cancel]
     have hlt := journalStep_lt (listEnv num cls) (listEnv_decr num cls) st hne
+    have hdy1 : (∀ t ∈ X, t.ty ≠ .directive) →
+        (journalStep (listEnv num cls) st).2.defaultYear = st.defaultYear := by
+      intro hnd
+      apply journalStep_dy
+      cases X with
+      | nil => exact absurd rfl hXne
+      | cons x X' =>
+        have : st.current = x := by simp [strm] at hs; exact hs.1
+        rw [this]; exact hnd x (by simp)
     generalize hst1 : (journalStep (listEnv num cls) st).2 = st1 at *
     generalize hit : (journalStep (listEnv num cls) st).1 = item at *
     -- continue from a state whose stream is `a' ++ nl :: y0 :: Y'` with `a'` shorter than `X`
     have hcont : ∀ a', a'.length ≤ k → (∀ t ∈ a', t.ty ≠ .eof) → X = C ++ a' →
         strm st1 = a' ++ nl :: y0 :: Y' →
-        ∃ items new dy, ErrZone X nl new ∧
+        ∃ items new dy, ErrZone X nl new ∧ ((∀ t ∈ X, t.ty ≠ .directive) → dy = st.defaultYear) ∧
           ∀ n m, measure (listEnv num cls) st ≤ n →
             measure (listEnv num cls) ⟨Y', y0, st.errors ++ new, dy⟩ ≤ m →
             parseJournalF (listEnv num cls) n st =
               (pushAll items (parseJournalF (listEnv num cls) m ⟨Y', y0, st.errors ++ new, dy⟩).1,
                (parseJournalF (listEnv num cls) m ⟨Y', y0, st.errors ++ new, dy⟩).2) := by
       intro a' ha'len ha'X hXa hs1
-      obtain ⟨items, new2, dy, hpos2, hrun⟩ := ih a' st1 ha'len ha'X hs1
-      refine ⟨item :: items, new1 ++ new2, dy, ?_, ?_⟩
+      obtain ⟨items, new2, dy, hpos2, hdy2, hrun⟩ := ih a' st1 ha'len ha'X hs1
+      refine ⟨item :: items, new1 ++ new2, dy, ?_, ?_, ?_⟩
       · intro x hx
         simp only [List.mem_append] at hx
         rcases hx with hx | hx
@@ -283,6 +292,9 @@ theorem sync (y0 : Token) (Y' : List Token) (nl : Token) (h1 : nl.ty = .newline)
               intro h0; rw [h0] at h; simp [lastNL] at h
             rw [hXa, lastNL_append, lastNL_seed (q := true) hne']
             exact h.2
+      · intro hnd
+        rw [hdy2 (fun t ht => hnd t (by rw [hXa]; simp [ht]))]
+        exact hdy1 hnd
       · intro n m hn hm
         obtain ⟨n1, rfl, hun⟩ := hstep n hn
         rw [hun]
@@ -303,7 +315,7 @@ theorem sync (y0 : Token) (Y' : List Token) (nl : Token) (h1 : nl.ty = .newline)
         -- consumed X ++ [nl]: the loop is at its head in front of y0
         have ht : t1 = nl ∧ P' = Y1 := by simp at hrest; exact ⟨hrest.1.symm, hrest.2.symm⟩
         have hs1 : strm st1 = y0 :: Y' := by rw [hstrm1, ht.2, hY]
-        refine ⟨[item], new1, st1.defaultYear, ?_, ?_⟩
+        refine ⟨[item], new1, st1.defaultYear, ?_, hdy1, ?_⟩
         · intro x hx
           obtain ⟨t, htm, hp⟩ := hpos1 x hx
           refine ⟨t, hp, ?_⟩
